@@ -144,6 +144,59 @@ class ClassInfo:
                 if st.value is not None:
                     self.class_attrs[st.target.id] = st.value
 
+        self._synthesize_dataclass(module)
+
+    def _synthesize_dataclass(self, module):
+        """@dataclass: the generated __init__ and __eq__ are materialised as analysis-only methods (own annotated
+        fields in order; simple defaults and field(default=..., compare=...) understood), so that a class converted
+        to a dataclass is analysed like its hand-written equivalent."""
+        deco = [d for d in self.decorators if d.split("(")[0].split(".")[-1] == "dataclass"]
+        if not deco:
+            return
+        opts = deco[0]
+        fields = []
+        for st in self.node.body:
+            if isinstance(st, ast.AnnAssign) and isinstance(st.target, ast.Name):
+                if "ClassVar" in ast.unparse(st.annotation):
+                    continue
+                default, compare, init = None, True, True
+                v = st.value
+                if isinstance(v, ast.Call) and ast.unparse(v.func).split(".")[-1] == "field":
+                    for k in v.keywords:
+                        if k.arg == "default":
+                            default = ast.unparse(k.value)
+                        elif k.arg == "default_factory":
+                            default = ast.unparse(k.value) + "()"
+                        elif k.arg == "compare" and isinstance(k.value, ast.Constant):
+                            compare = bool(k.value.value)
+                        elif k.arg == "init" and isinstance(k.value, ast.Constant):
+                            init = bool(k.value.value)
+                elif v is not None:
+                    default = ast.unparse(v)
+                fields.append((st.target.id, default, compare, init))
+        src = []
+        if "__init__" not in self.methods and "init=False" not in opts:
+            params = ", ".join(n + (f"={d}" if d is not None else "") for n, d, c, i in fields if i)
+            body = "".join(f"    self.{n} = {n if i else d}\n" for n, d, c, i in fields) or "    pass\n"
+            src.append(f"def __init__(self{', ' if params else ''}{params}):\n{body}")
+        if "__eq__" not in self.methods and "eq=False" not in opts:
+            cmp = [n for n, d, c, i in fields if c]
+            a = "(" + "".join(f"self.{n}, " for n in cmp) + ")"
+            b = "(" + "".join(f"other.{n}, " for n in cmp) + ")"
+            src.append(f"def __eq__(self, other):\n    if other.__class__ is self.__class__:\n        return {a} == {b}\n    return NotImplemented\n")
+        for text in src:
+            try:
+                fn = ast.parse(text).body[0]
+            except SyntaxError:
+                continue
+            for n_ in ast.walk(fn):
+                if hasattr(n_, "lineno"):
+                    n_.lineno = self.node.lineno
+                    n_.end_lineno = self.node.lineno
+            fi = FunctionInfo(fn, module, self)
+            fi.synthetic = True
+            self.methods[fi.name] = fi
+
     @property
     def qualname(self) -> str:
         return f"{self.module.name}.{self.name}"
